@@ -269,6 +269,7 @@ struct ThreadOut {
     nontrivial: u64,
     states: BTreeSet<u64>,
     logs: BTreeSet<u64>,
+    run_hashes: Vec<(u64, u64)>,
     probes: BTreeMap<&'static str, u64>,
     faults: BTreeMap<&'static str, u64>,
     per_profile: BTreeMap<String, u64>,
@@ -309,6 +310,7 @@ pub fn check(args: &CheckArgs) -> i32 {
                         nontrivial: 0,
                         states: BTreeSet::new(),
                         logs: BTreeSet::new(),
+                        run_hashes: Vec::new(),
                         probes: BTreeMap::new(),
                         faults: BTreeMap::new(),
                         per_profile: BTreeMap::new(),
@@ -322,6 +324,7 @@ pub fn check(args: &CheckArgs) -> i32 {
                         let profile = profile_of(index);
                         let out = run(Source::Generate(Gen::new(seed, profile)), property, false);
                         o.runs += 1;
+                        o.run_hashes.push((index, out.log_hash));
                         o.steps += out.steps.len() as u64;
                         o.sim_s += out.sim_s;
                         o.submissions += out.submissions;
@@ -390,7 +393,9 @@ pub fn check(args: &CheckArgs) -> i32 {
     let mut step_kinds: BTreeMap<&'static str, u64> = BTreeMap::new();
     let mut rechecks = 0;
     let mut samples: Vec<serde_json::Value> = Vec::new();
+    let mut run_hashes: Vec<(u64, u64)> = Vec::new();
     for o in outs {
+        run_hashes.extend(o.run_hashes.iter().copied());
         findings.extend(o.findings);
         harness_errors.extend(o.harness_errors);
         total_runs += o.runs;
@@ -417,6 +422,8 @@ pub fn check(args: &CheckArgs) -> i32 {
     }
     findings.sort();
     harness_errors.sort();
+    run_hashes.sort();
+    let log_digest = mix(&run_hashes.iter().map(|(_, h)| *h).collect::<Vec<u64>>());
     samples.sort_by_key(|s| s["index"].as_u64());
 
     // group by signature: first run (lowest index) of each
@@ -513,6 +520,7 @@ pub fn check(args: &CheckArgs) -> i32 {
             "distinct_states": states.len(),
             "distinct_states_measure": "per queue (paused, number of allocations per lifecycle rank, back-off level, capped failure counters), hashed over all queues",
             "determinism_rechecks": rechecks,
+            "log_digest": format!("{log_digest:016x}"),
             "components": {
                 "real": [
                     "hyperqueue::server::autoalloc::state (AutoAllocState, AllocationQueue, Allocation, RateLimiter)",
@@ -545,7 +553,7 @@ pub fn check(args: &CheckArgs) -> i32 {
         &evidence,
     );
     println!(
-        "{property}: {total_runs} runs ({nontrivial} non-trivial, {} distinct), {steps} steps, {sim_s} simulated s, {submissions} submission attempts, {} abstract states, {:.1}s wall; violations={violations} known={} harness_errors={}",
+        "{property}: {total_runs} runs ({nontrivial} non-trivial, {} distinct), {steps} steps, {sim_s} simulated s, {submissions} submission attempts, {} abstract states, log digest {log_digest:016x}, {:.1}s wall; violations={violations} known={} harness_errors={}",
         logs.len(),
         states.len(),
         wall,
